@@ -214,6 +214,7 @@ type Rule struct {
 	// WhereSrc overrides Where.Go() (for expressions outside the DExpr grammar)
 	WhereSrc string
 	Extra    string // appended after Report(...), e.g. `.At(m["x"])`
+	Report   string // report template; default: the group name
 }
 
 const RulesHeader = "package gorules\n\nimport (\n\t\"github.com/quasilyte/go-ruleguard/dsl\"\n\t\"github.com/quasilyte/go-ruleguard/dsl/types\"\n)\n\nvar _ = types.Identical\n\n"
@@ -232,7 +233,11 @@ func RulesFile(prelude string, rules []Rule) string {
 		if w != "" {
 			fmt.Fprintf(&sb, ".\n\t\tWhere(%s)", w)
 		}
-		fmt.Fprintf(&sb, ".\n\t\tReport(`%s`)%s\n}\n", r.Name, r.Extra)
+		rep := r.Report
+		if rep == "" {
+			rep = r.Name
+		}
+		fmt.Fprintf(&sb, ".\n\t\tReport(`%s`)%s\n}\n", rep, r.Extra)
 	}
 	return sb.String()
 }
